@@ -19,6 +19,8 @@ Ev == TraceLog[l]
 Is(e) == l <= Len(TraceLog) /\ TraceLog[l].ev = e
 ToOp(e) == Op(e.method, e.path, {P(p.name, p.in, p.required) : p \in RangeQ(e.params)}, e.hasBody, RangeQ(e.statuses),
               {RQ({Sch(x.name, x.kind) : x \in RangeQ(r.schemes)}, RangeQ(r.scopes)) : r \in RangeQ(e.security)})
+\* documented operations are compared without their Authorization header parameter (see DocParam)
+ToDocOp(e) == LET o == ToOp(e) IN [o EXCEPT !.params = {p \in @ : DocParam(p)}]
 ToMount(e) == Mnt(e.method, e.pattern)
 Step == l' = l + 1 /\ UNCHANGED vars
 
@@ -33,11 +35,11 @@ TEndMounts == /\ Is("end_mounts") /\ opc = "server" /\ seenM = MountsOf(design) 
 TSrvop == /\ Is("srvop") /\ opc = "server" /\ ToOp(Ev) \in SrvOpsOf(design)
           /\ seenO' = seenO \cup {ToOp(Ev)} /\ UNCHANGED <<ovars, seenM>> /\ Step
 TEndSrv == /\ Is("end_srv") /\ GenServer /\ mounts' = seenM /\ srvOps' = seenO /\ seenM' = {} /\ seenO' = {} /\ Step
-TDocop3 == /\ Is("docop") /\ Ev.version = 3 /\ opc = "doc3" /\ ToOp(Ev) \in V3Ops(design)
-           /\ seenO' = seenO \cup {ToOp(Ev)} /\ UNCHANGED <<ovars, seenM>> /\ Step
+TDocop3 == /\ Is("docop") /\ Ev.version = 3 /\ opc = "doc3" /\ ToDocOp(Ev) \in V3Ops(design)
+           /\ seenO' = seenO \cup {ToDocOp(Ev)} /\ UNCHANGED <<ovars, seenM>> /\ Step
 TEndDoc3 == /\ Is("end_doc") /\ Ev.version = 3 /\ BuildV3 /\ doc3' = seenO /\ seenO' = {} /\ UNCHANGED seenM /\ Step
-TDocop2 == /\ Is("docop") /\ Ev.version = 2 /\ opc = "doc2" /\ ToOp(Ev) \in V2Ops(design)
-           /\ seenO' = seenO \cup {ToOp(Ev)} /\ UNCHANGED <<ovars, seenM>> /\ Step
+TDocop2 == /\ Is("docop") /\ Ev.version = 2 /\ opc = "doc2" /\ ToDocOp(Ev) \in V2Ops(design)
+           /\ seenO' = seenO \cup {ToDocOp(Ev)} /\ UNCHANGED <<ovars, seenM>> /\ Step
 TEndDoc2 == /\ Is("end_doc") /\ Ev.version = 2 /\ BuildV2 /\ doc2' = seenO /\ seenO' = {} /\ UNCHANGED seenM /\ Step
 PV == VerdictsOf(design)
 TDocvalid == /\ Is("docvalid") /\ opc = "write" /\ Ev.ok = (IF Ev.version = 3 THEN PV.valid3 ELSE PV.valid2)
